@@ -280,7 +280,7 @@ SV(gx, x, gy, y, asm, tol) ==
                     /\ \A i \in 1..Len(nx.items) : SV(gx, nx.items[i], gy, ny.items[i], fuel, tol)
               [] nx.k \in {"map", "struct"} /\ ny.k \in {"map", "struct"} ->
                     IF nx.k = "struct" /\ ny.k = "struct"
-                    THEN /\ nx.name = ny.name /\ Len(nx.fields) = Len(ny.fields)
+                    THEN /\ nx.hname = ny.hname /\ Len(nx.fields) = Len(ny.fields)
                          /\ \A i \in 1..Len(nx.fields) : /\ nx.fields[i][1] = ny.fields[i][1]
                                                          /\ SV(gx, nx.fields[i][2], gy, ny.fields[i][2], fuel, tol)
                     ELSE LET ex == IF nx.k = "struct" THEN FieldsAsEnts(nx) ELSE nx.ents
